@@ -337,46 +337,71 @@ def main():
     samples = []
     benign = []
     seen_viol = set()
-    for c in cases:
+    def problem_of(c):
+        "-> (problem text | None | 'ERR:<why>', diff info for benign bookkeeping)"
         h, p, pm, _ = c
-        if not h:
-            continue
         r = res[json.dumps(c[:3])]
         b = base[p]
-        tag = f"history={h} probe={p} on {pm} executor"
-        rep.obligations += 1
         if "error" in r or "error" in b:
-            rep.inconc(tag, r.get("error") or b.get("error"))
-            continue
-        nontrivial += 1
+            return "ERR:" + str(r.get("error") or b.get("error")), None
         problem = None
+        extra = None
         if r["outcome"] != b["outcome"]:
             problem = f"fresh process: {b['outcome']} ({b.get('exc', '')}); after the history: {r['outcome']} ({r.get('exc', '')})"
         elif r["outcome"] == "ok":
             if r["docker"] != b["docker"]:
                 problem = f"docker metadata seen by the probe: {r['docker']} vs fresh {b['docker']}"
             elif r["files"] != b["files"]:
+                import difflib
                 diff_files = [k for k in b["files"] if r["files"].get(k) != b["files"][k]]
                 eq, why = (None, "")
                 if set(diff_files) <= {"query.cxx", "query.h"}:
                     eq, why = semantic_equal(PROBES_ALL[p], r["raw"], b["raw"])
+                d0 = diff_files[0]
+                delta = [ln for ln in difflib.unified_diff(b["files"][d0].splitlines(), r["files"][d0].splitlines(), lineterm="", n=0)
+                         if ln[:1] in "+-" and not ln.startswith(("+++", "---"))][:6]
                 if eq is True:
                     # "the same, up to the numbering of generated names": a difference that renaming does not explain is a
                     # violation even when the two packages compute the same rows (e.g. declarations emitted in another order)
-                    benign.append((tag, diff_files, why))
-                    import difflib
-                    d0 = diff_files[0]
-                    delta = [ln for ln in difflib.unified_diff(b["files"][d0].splitlines(), r["files"][d0].splitlines(), lineterm="", n=0)
-                             if ln[:1] in "+-" and not ln.startswith(("+++", "---"))][:6]
+                    extra = (diff_files, why)
                     problem = f"package text differs beyond the numbering of generated names in {diff_files} (rows equal for all events): {delta}"
                 else:
-                    import difflib
-                    d0 = diff_files[0]
-                    delta = [ln for ln in difflib.unified_diff(b["files"][d0].splitlines(), r["files"][d0].splitlines(), lineterm="", n=0)
-                             if ln[:1] in "+-" and not ln.startswith(("+++", "---"))][:6]
                     problem = f"package differs in {diff_files}: {delta} {why}"
+        return problem, extra
+
+    problems = {}
+    for c in cases:
+        if c[0]:
+            problems[json.dumps(c[:3])] = problem_of(c)
+    for c in cases:
+        h, p, pm, _ = c
+        if not h:
+            continue
+        r = res[json.dumps(c[:3])]
+        tag = f"history={h} probe={p} on {pm} executor"
+        rep.obligations += 1
+        problem, extra = problems[json.dumps(c[:3])]
+        if isinstance(problem, str) and problem.startswith("ERR:"):
+            rep.inconc(tag, problem[4:])
+            continue
+        nontrivial += 1
+        if extra is not None:
+            benign.append((tag, extra[0], extra[1]))
         if problem:
-            kf = next((f for f in kfs if all(o in f["history_ops"] for o, _ in h) and p in f["probes"] and re.search(f["problem_regex"], problem)), None)
+            # a listed finding explains the problem only if (i) one of its operations is in the history, (ii) probe and symptom match,
+            # and (iii) the SAME case without those operations shows no problem (so anything else that is wrong is still reported)
+            kf = None
+            for f in kfs:
+                if not any(o in f["history_ops"] for o, _ in h) or p not in f["probes"] or not re.search(f["problem_regex"], problem):
+                    continue
+                h2 = [(o, m_) for o, m_ in h if o not in f["history_ops"]]
+                if not h2:
+                    kf = f
+                    break
+                other = problems.get(json.dumps((h2, p, pm)))
+                if other is not None and other[0] is None:
+                    kf = f
+                    break
             if kf is not None:
                 rep.known(kf["id"], kf["what"][:200] + f" | observed: {tag[:160]}")
                 continue
